@@ -256,7 +256,7 @@ def main(argv=None):
     bounded_results = []
     for b in BOUNDED.get(prop, []):
         w = replay_engine.search_case(b['case'], seed, list(kf_open.keys()))
-        rec = dict(b, status='ok', tried=w.get('tried'))
+        rec = dict(b, status='ok', tried=w.get('tried'), samples=w.get('samples', []))
         if w.get('reproduced'):
             rec['status'] = 'violation'
             payload = dict(property=prop, unit=b['case'], engine='bounded replay enumeration', obligation=f"executable contract `{b['case']}` of {b['function']}",
@@ -372,7 +372,7 @@ def write_evidence(prop, tier, seed, outcomes, kres, kf_open, kf_lines, kf_notes
         trusted += kres.get('trusted', [])
         assumptions += kres.get('assumptions', [])
     for b in bounded_results:
-        bounded.append(dict(stand_in='replay enumeration', case=b['case'], function=b['function'], bound=b['bound'], inputs_tried=b.get('tried'), status=b['status'],
+        bounded.append(dict(stand_in='replay enumeration', case=b['case'], function=b['function'], bound=b['bound'], inputs_tried=b.get('tried'), status=b['status'], samples=b.get('samples', [])[:3],
                             why_not_deductive=b['why'], note='bounded stand-in: NOT counted in obligations/discharged'))
     for n in kf_notes: assumptions.append('known finding note: ' + n)
     level = 'proof'
@@ -400,8 +400,24 @@ def write_evidence(prop, tier, seed, outcomes, kres, kf_open, kf_lines, kf_notes
         verdict={0: 'held', 1: 'violation', 2: 'undecided'}[exit_code],
     )
     if level != 'proof':
-        cov['evaluations'] = max(1, obligations + len(bounded))
-        cov['distinct_nontrivial'] = max(2, obligations + len(bounded))
+        # bounded-only claim: evaluations = inputs the replay enumerations ran on the real code; an input counts as non-trivial when the
+        # case reports it (`N inputs agree with the reference (M non-trivial)` for exhaustive sub-enumerations, else 1 per input)
+        import re as _re
+        ev_n = nt_n = 0
+        smp = []
+        for b in bounded_results:
+            ev_n += b.get('tried') or 0
+            nt_n += b.get('tried') or 0
+            for sm in b.get('samples', []):
+                m = _re.search(r'(\d+) inputs agree with the reference \((\d+) non-trivial\)', sm.get('observed', ''))
+                if m:
+                    ev_n += int(m.group(1)) - 1; nt_n += int(m.group(2)) - 1
+                smp.append(sm)
+        cov['evaluations'] = ev_n
+        cov['distinct_nontrivial'] = nt_n
+        cov['rule'] = ('inputs are enumerated by the replay cases listed under `bounded` (exhaustive over the stated alphabets / lengths, or hand-written tables); '
+                       'distinct by construction (each word / table row once); non-trivial = exercises the feature under test (an escape, a line terminator, a valid number, a table row), as counted by the case itself')
+        cov['samples'] = smp[:8] or cov['samples']
     ev = dict(property_id=prop, tier=tier, seed=seed, level=level, coverage=cov,
               assumptions=sorted(set(assumptions)), wall_s=round(wall, 2), violations=nviol)
     json.dump(ev, open(os.path.join(EVID, prop + '.json'), 'w'), indent=1)
